@@ -237,7 +237,7 @@ row(props=["C18"], func=EV + "(NullPointException).EvaluateList", params=["n", "
 row(props=["C16"], func="pkg/domain/cloc.BuildLanguageMap", params=["languageMap", "keys", "filePath"], kind="emits", target="mapstore:p0", tag={}, total=1,
     when="true", fields={"key": "trimSuffix(base(filePath), ext(filePath))"}, what="the row is named after the output file without its extension (= the subdirectory name)")
 row(props=["C16"], func="cmd.processTopFile", params=["dir"], kind="slicebound", field="Files", each={"as": "summary"},
-    expr='ite(len(summary.Files) >= global("cmd.clocConfig").TopSizes, global("cmd.clocConfig").TopSizes, len(summary.Files))',
+    expr='ite(ite(len(summary.Files) >= global("cmd.clocConfig").TopSizes, global("cmd.clocConfig").TopSizes, len(summary.Files)) < 0, 0, ite(len(summary.Files) >= global("cmd.clocConfig").TopSizes, global("cmd.clocConfig").TopSizes, len(summary.Files)))',
     what="every language lists its first min(top-size, number of files) files")
 def rename_terms(f):
     m = 'call("regexp.(Regexp).FindStringSubmatch", global("pkg/application/git.complexMoveReg"), %s)' % f
